@@ -179,11 +179,11 @@ func (e *Env) DrawC10(rt *rapid.T) C10Case {
 
 // expected classifies what the model expects for request i.
 type c10Expect struct {
-	reply     bool
-	invoked   bool
-	kind      string // success | error | ping | unknown | queue-timeout | handle-timeout
-	errCode   int32
-	errMsg    string
+	reply   bool
+	invoked bool
+	kind    string // success | error | ping | unknown | queue-timeout | handle-timeout
+	errCode int32
+	errMsg  string
 }
 
 func (e *Env) c10Model(c C10Case) []c10Expect {
